@@ -68,6 +68,14 @@ def build(params, ret, ARR, tc, style="function", order=None, category="Float", 
         fn = g["f"]
         fn.__module__ = "verif_generated"
         out = jt.jaxtyped(typechecker=typechecker(tc))(fn)
+    elif style == "varargs":
+        # the last parameter is declared as an annotated *args parameter
+        parts = [f"{pnames[i]}{ann(i)}" for i in order[:-1]] + [f"*{pnames[order[-1]]}{ann(order[-1])}"]
+        src = f"def f({', '.join(parts)}){' -> R' if ret is not None else ''}:\n    return _body()\n"
+        exec(src, g)
+        fn = g["f"]
+        fn.__module__ = "verif_generated"
+        out = jt.jaxtyped(typechecker=typechecker(tc))(fn)
     elif style == "dataclass":
         fields = "\n".join(f"    {pnames[i]}{ann(i) or ': object'}" for i in order)
         src = f"@dataclasses.dataclass\nclass f:\n{fields}\n"
